@@ -164,7 +164,7 @@ func c08Body(c *core.Ctx) {
 		return
 	}
 	vexec.Init()
-	gen := GenOpts{MaxN: 4, Retries: true, Preconds: true, ContinueOn: true, Failures: true, MaxActive: true, Handlers: true}
+	gen := GenOpts{MaxN: 4, Retries: true, Preconds: true, ContinueOn: true, Failures: true, MaxActive: true, Handlers: true, Outputs: true}
 	handle := func(idx int, spec *vexec.CaseSpec, out *vexec.Outcome, what string) {
 		c.Eval(1)
 		if out.Inconclusive != "" {
